@@ -41,7 +41,7 @@ def run(tier, seed, only=None):
            core.Database._exec_sql, S.prepare_connection_for_query_execution, S.connect, S.commit, S.close,
            P.set_transaction_mode, P.acquire_lock, P.release_lock, P.commit, P.rollback, ppg.PGProvider.set_transaction_mode,
            ppg.PGPool.release, sqlbuilding.SQLBuilder.SELECT_FOR_UPDATE, ps.SQLiteBuilder.SELECT_FOR_UPDATE)
-    T = 150 if tier == 'quick' else 900
+    T = 240 if tier == 'quick' else 1500         # measured with 16 workers on a machine under load ~30: 100 s per SQLite harness (quick), idle ~25 s
     os.environ.pop('C35_MUTANT', None)                            # canary hook (development only) is never active here
     if tier == 'thorough': os.environ['C35_THOROUGH'] = '1'      # read by checks/h_c35.py in the worker processes
     from checks import h_c35
@@ -53,14 +53,16 @@ def run(tier, seed, only=None):
         'lookup styles': ['T.get(id=1) / T.get_for_update(id=1, ...)', 'T.get(lambda) / T.get_for_update(lambda, ...)',
                           'select(x for x in T if x.id == 1)[.for_update(nw, sk)][:]', 'T.select(lambda x: x.a > 0)[.for_update(...)].first()'],
         'flags': 'for_update, nowait, skip_locked (nowait+skip_locked together: TypeError expected), serializable, optimistic, immediate, writes: all 2^k combinations',
-        'mid': ['nothing', 'commit() between lookup and write'] + (['flush() after the write + the lookup again', 'commit() + the lookup again'] if thorough else []),
+        'mid': ['nothing', 'commit() between lookup and write', 'the body raises at its end (rollback)'] + (['flush() after the write + the lookup again', 'commit() + the lookup again'] if thorough else []),
         'read before the lookup': ['nothing', 'plain T.get(id=1) (object cached, not locked)', 'the same lookup without for_update (query result cached)'] +
                                   (['plain select of all rows', 'a locking lookup of another style'] if thorough else []),
         'rival session in another thread (SQLite)': ['none', 'optimistic writer', 'non-optimistic writer', 'get_for_update writer'],
         'data': 'one entity T(id PrimaryKey(int), a Required(int)), one row; one first session, at most one rival started right after the lookup, one writer after the session',
-        'traced kernels': 'k_sqlite_mode / k_pg_mode: serializable, optimistic, immediate, ddl, a plain statement first, a lock request '
-                          '(cache.immediate set as the locking lookups do), commit() in between, start_transaction of the last statement: symbolic booleans; '
+        'traced kernels': 'k_sqlite_mode / k_pg_mode (64 paths each): serializable, optimistic, immediate, a plain statement first, a lock request '
+                          '(cache.immediate set as the locking lookups do), commit() in between: symbolic booleans seen by the real code; '
                           'k_builder: nowait, skip_locked, LIMIT present, dialect in {base SQLBuilder, PostgreSQL, SQLite}',
+        'paths': 'quick: 1440 option combinations per SQLite harness (8 harnesses), 720 per PostgreSQL harness (4); thorough: 4000 / 2000; every combination is explored exactly once (counted)',
+        'concrete tie': '8 kinds of first session x 3 kinds of rival, one schedule each, real sqlite3 + real threads (not solver-quantified)',
     }
     rep.assumptions = [
         'fake DB-API (engine/fakedb.py): SQLite transaction model = explicit BEGIN..commit()/rollback(); PEP 249 model for PostgreSQL with the autocommit attribute '
@@ -68,6 +70,8 @@ def run(tier, seed, only=None):
         'provider.transaction_lock / pre_transaction_lock replaced by fakedb.ProbeLock (a real threading.Lock probed with acquire(False); raises WouldBlock instead of blocking): '
         '"the rival would block" is read off that exception',
         'checks/h_c35.py SnapRecorder subclasses fakedb.Recorder only to snapshot (lock held, autocommit, in_tx) at every DB-API call',
+        'every explored path starts with cold translator / SQL-text caches (db._translator_cache, db._constructed_sql_cache, the entity\'s *_sql_cache_): pony keeps per-location state '
+        '(a translator remembers having built a FOR UPDATE statement), so without this the outcome of a path could depend on exploration order',
         'pony.orm.core.time stubbed to a constant; pony.orm.dbproviders.sqlite.sqlite (driver module global) points at the recording module',
         'E-harnesses: the option flags are decided under the tracer, the session itself runs under crosshair.NoTracing with the chosen concrete values '
         '(the traced translator does not finish a path in 150 s); every path is one concrete run',
@@ -77,4 +81,106 @@ def run(tier, seed, only=None):
     rep.trusted = ['crosshair-tool 0.0.110', 'z3', 'engine/fakedb.py (driver model, ProbeLock)', 'reference L1-L7 / P1-P5 in checks/h_c35.py',
                    'that SQLite honours BEGIN IMMEDIATE and PostgreSQL honours FOR UPDATE / SERIALIZABLE (no engine runs); thread schedules']
     ch.run_harnesses(rep, specs, classify)
+    if not only: tie_real_sqlite(rep)
     return rep
+
+
+def tie_real_sqlite(rep):
+    """Concrete tie (NOT solver-quantified; reported as 'concrete-tie' obligations): two real sessions in two threads on the real
+    sqlite3 engine and a database file, public API only.  The first session reads the row (locking lookup / serializable /
+    immediate / non-optimistic / plain optimistic), signals, waits 0.4 s for the rival, then writes a+1 and ends; the rival
+    (optimistic / non-optimistic / get_for_update writer) starts at the signal and writes a+100.  Expected: while a locking
+    or serializable first session is open the rival has not finished (it waits), the first session succeeds, nothing hangs,
+    and the final value is 10 + the increments of exactly the sessions that reported success (a session may FAIL with
+    OptimisticCheckError / UnrepeatableReadError, but a write reported as committed is never lost).  Ties the ProbeLock /
+    journal model of the harnesses to the real lock and the real engine for one schedule."""
+    import shutil, tempfile, threading
+    from engine.core import Ob, HOLDS, CEX
+    from pony.orm import Database, PrimaryKey, Required, db_session, select
+
+    tmp = tempfile.mkdtemp(prefix='verif_c35_')
+    try:
+        db = Database()
+        db.bind('sqlite', os.path.join(tmp, 'tie.sqlite'), create_db=True, timeout=2.0)
+
+        class T(db.Entity):
+            id = PrimaryKey(int)
+            a = Required(int)
+        db.generate_mapping(create_tables=True)
+
+        firsts = {
+            'get_for_update(id=1)': ({}, lambda: T.get_for_update(id=1), True),
+            'get_for_update(lambda)': ({}, lambda: T.get_for_update(lambda x: x.id == 1), True),
+            'select().for_update()': ({}, lambda: select(x for x in T if x.id == 1).for_update()[:][0], True),
+            'select().for_update().first()': ({}, lambda: T.select(lambda x: x.a > 0).for_update().first(), True),
+            'serializable get': (dict(serializable=True), lambda: T.get(id=1), True),
+            'immediate get': (dict(immediate=True), lambda: T.get(id=1), True),
+            'non-optimistic get': (dict(optimistic=False), lambda: T.get(id=1), True),
+            'optimistic get (no lock)': ({}, lambda: T.get(id=1), False),
+        }
+        rivals = {
+            'optimistic writer': ({}, lambda: T.get(id=1)),
+            'non-optimistic writer': (dict(optimistic=False), lambda: T.get(id=1)),
+            'get_for_update writer': ({}, lambda: T.get_for_update(id=1)),
+        }
+        for fname, (fkw, flook, locks) in firsts.items():
+            for rname, (rkw, rlook) in rivals.items():
+                with db_session:
+                    db.execute('DELETE FROM T')
+                    T(id=1, a=10)
+                res = {}
+                looked, rival_done = threading.Event(), threading.Event()
+
+                def first():
+                    try:
+                        with db_session(**fkw):
+                            o = flook()
+                            v = o.a
+                            looked.set()
+                            rival_done.wait(0.4)
+                            res['rival finished while the first session was open'] = rival_done.is_set()
+                            o.a = v + 1
+                        res['first'] = 'ok'
+                    except Exception as e:
+                        res['first'] = type(e).__name__
+                    finally:
+                        looked.set()
+
+                def rival():
+                    looked.wait(10)
+                    try:
+                        with db_session(**rkw):
+                            o = rlook()
+                            o.a = o.a + 100
+                        res['rival'] = 'ok'
+                    except Exception as e:
+                        res['rival'] = type(e).__name__
+                    finally:
+                        rival_done.set()
+
+                ta, tb = threading.Thread(target=first), threading.Thread(target=rival)
+                ta.start(); tb.start(); ta.join(20); tb.join(20)
+                bad = []
+                if ta.is_alive() or tb.is_alive(): bad.append('a session hangs')
+                else:
+                    with db_session:
+                        final = db.get('SELECT a FROM T WHERE id = 1')
+                    res['final'] = final
+                    want = 10 + (1 if res.get('first') == 'ok' else 0) + (100 if res.get('rival') == 'ok' else 0)
+                    if final != want: bad.append('final value %r, the sessions that reported success add up to %r (a committed write was lost)' % (final, want))
+                    for k in ('first', 'rival'):
+                        if res.get(k) not in ('ok', 'OptimisticCheckError', 'UnrepeatableReadError'): bad.append('%s session: %s' % (k, res.get(k)))
+                    if locks:
+                        if res.get('rival finished while the first session was open'): bad.append('the rival finished while the locking session was open')
+                        if res.get('first') != 'ok': bad.append('the locking session failed: %s' % res.get('first'))
+                    if db.provider.transaction_lock.locked(): bad.append('transaction lock left held')
+                nm = 'tie:real-sqlite:%s vs %s' % (fname, rname)
+                if bad:
+                    rep.add(Ob(nm, 'concrete-tie', CEX, detail='; '.join(bad) + ' | %r' % (res,), reproduced=True, cex={'first': fname, 'rival': rname, 'observed': res},
+                               replay='# see tie_real_sqlite in /verif/checks/c35.py: first session %s, rival %s -> %s\nraise SystemExit(1)\n' % (fname, rname, '; '.join(bad))))
+                    if ta.is_alive() or tb.is_alive(): return          # do not pile up blocked threads
+                else:
+                    rep.add(Ob(nm, 'concrete-tie', HOLDS, detail=repr(res)))
+        db.disconnect()
+    finally:
+        shutil.rmtree(tmp, ignore_errors=True)
